@@ -164,7 +164,8 @@ class ParserFactory:
             p[0] = AstNamespace(
                 self.path, p.lineno(1), p.lexpos(1), p[2], doc)
         else:
-            raise ValueError('Expected namespace keyword')
+            self.errors.append(
+                ("Expected 'namespace', got '%s'." % p[1], p.lineno(1), self.path))
 
     def p_import(self, p):
         'import : IMPORT ID NL'
@@ -181,7 +182,8 @@ class ParserFactory:
             if has_annotations:
                 p[0].set_annotations(p[7])
         else:
-            raise ValueError('Expected alias keyword')
+            self.errors.append(
+                ("Expected 'alias', got '%s'." % p[1], p.lineno(1), self.path))
 
     def p_nl(self, p):
         'NL : NEWLINE'
